@@ -13,6 +13,9 @@ pub fn expand(input: &DeriveInput, trait_name: &str) -> TokenStream {
     let trait_ident = format_ident!("{trait_name}");
     let method_name = trait_name.to_lowercase();
     let method_ident = format_ident!("{method_name}");
+    // Fully qualified, so that an inherent method of the same name on a field's type is never
+    // picked instead.
+    let method = quote! { derive_more::core::ops::#trait_ident::#method_ident };
     let input_type = &input.ident;
 
     let generics = add_extra_type_param_bound_op_output(&input.generics, &trait_ident);
@@ -22,11 +25,11 @@ pub fn expand(input: &DeriveInput, trait_name: &str) -> TokenStream {
         Data::Struct(ref data_struct) => match data_struct.fields {
             Fields::Unnamed(ref fields) => (
                 quote! { #input_type #ty_generics },
-                tuple_content(input_type, &unnamed_to_vec(fields), &method_ident),
+                tuple_content(input_type, &unnamed_to_vec(fields), &method),
             ),
             Fields::Named(ref fields) => (
                 quote! { #input_type #ty_generics },
-                struct_content(input_type, &named_to_vec(fields), &method_ident),
+                struct_content(input_type, &named_to_vec(fields), &method),
             ),
             _ => panic!("Unit structs cannot use derive({trait_name})"),
         },
@@ -34,7 +37,7 @@ pub fn expand(input: &DeriveInput, trait_name: &str) -> TokenStream {
             quote! {
                 derive_more::core::result::Result<#input_type #ty_generics, derive_more::BinaryError>
             },
-            enum_content(input_type, data_enum, &method_ident),
+            enum_content(input_type, data_enum, &method_ident, &method),
         ),
 
         _ => panic!("Only structs and enums can use derive({trait_name})"),
@@ -60,19 +63,19 @@ pub fn expand(input: &DeriveInput, trait_name: &str) -> TokenStream {
 fn tuple_content<T: ToTokens>(
     input_type: &T,
     fields: &[&Field],
-    method_ident: &Ident,
+    method: &TokenStream,
 ) -> TokenStream {
-    let exprs = tuple_exprs(fields, method_ident);
+    let exprs = tuple_exprs(fields, method, &quote! {});
     quote! { #input_type(#(#exprs),*) }
 }
 
 fn struct_content(
     input_type: &Ident,
     fields: &[&Field],
-    method_ident: &Ident,
+    method: &TokenStream,
 ) -> TokenStream {
     // It's safe to unwrap because struct fields always have an identifier
-    let exprs = struct_exprs(fields, method_ident);
+    let exprs = struct_exprs(fields, method, &quote! {});
     let field_names = field_idents(fields);
 
     quote! { #input_type{#(#field_names: #exprs),*} }
@@ -83,9 +86,10 @@ fn enum_content(
     input_type: &Ident,
     data_enum: &DataEnum,
     method_ident: &Ident,
+    method: &TokenStream,
 ) -> TokenStream {
     let mut matches = vec![];
-    let mut method_iter = iter::repeat(method_ident);
+    let mut method_iter = iter::repeat(method);
 
     for variant in &data_enum.variants {
         let subtype = &variant.ident;
@@ -103,7 +107,7 @@ fn enum_content(
                     (#subtype(#(#l_vars),*),
                      #subtype(#(#r_vars),*)) => {
                         derive_more::core::result::Result::Ok(
-                            #subtype(#(#l_vars.#method_iter(#r_vars)),*)
+                            #subtype(#(#method_iter(#l_vars, #r_vars)),*)
                         )
                     }
                 };
@@ -112,7 +116,7 @@ fn enum_content(
             Fields::Named(ref fields) => {
                 // The pattern that is outputted should look like this:
                 // (Subtype{a: __l_a, ...}, Subtype{a: __r_a, ...} => {
-                //     Ok(Subtype{a: __l_a.add(__r_a), ...})
+                //     Ok(Subtype{a: Add::add(__l_a, __r_a), ...})
                 // }
                 let field_vec = named_to_vec(fields);
                 let size = field_vec.len();
@@ -124,7 +128,7 @@ fn enum_content(
                     (#subtype{#(#field_names: #l_vars),*},
                      #subtype{#(#field_names: #r_vars),*}) => {
                         derive_more::core::result::Result::Ok(#subtype{
-                            #(#field_names: #l_vars.#method_iter(#r_vars)),*
+                            #(#field_names: #method_iter(#l_vars, #r_vars)),*
                         })
                     }
                 };
